@@ -40,16 +40,28 @@ def graphs(ck):
     return out
 
 
-def files_for(n, g, variant):
-    """file i is /w/f<i>.td; variant 1 puts odd files into the INCLUDE_DIR /inc and adds decoys"""
+WRAP = ["%s", "let v = 1 in { %s }", "foreach i = [1] in { %s }", "if 1 then { %s }", "defset list<int> s%d = { %s }", "if 0 then { def q%d; } else { %s }",
+        "let v = 1 in { foreach j = [1, 2] in { %s } }"]
+
+
+def files_for(n, g, variant, style=0):
+    """file i is /w/f<i>.td; variant 1 puts odd files into the INCLUDE_DIR /inc and adds decoys; style > 0 puts include
+    statements into let / foreach / if / defset blocks (each still on a line of its own) and adds declarations of every kind"""
     files, paths = {}, {}
     for i in range(n):
         paths[i] = "/inc/f%d.td" % i if (variant == 1 and i % 2 == 1) else "/w/f%d.td" % i
     for i in range(n):
         lines = []
-        for t in g[i]:
-            lines.append('include "%s"' % ("missing.td" if t is None else "f%d.td" % t))
+        for j, t in enumerate(g[i]):
+            inc = 'include "%s"' % ("missing.td" if t is None else "f%d.td" % t)
+            w = WRAP[(style * (i + 1) + j) % len(WRAP)] if style else "%s"
+            lines.append(w % ((i * 10 + j, inc) if w.count("%") == 2 else inc))
         lines.append("class C%d;" % i)
+        if style:
+            lines.append("def d%d : C%d { int f%d = %d; }" % (i, i, i, i))
+            lines.append("multiclass M%d<int p> { def _x : C%d; }" % (i, i))
+            lines.append("defm dm%d : M%d<%d>;" % (i, i, i))
+            lines.append("defvar v%d = d%d.f%d;" % (i, i, i))
         files[paths[i]] = "\n".join(lines) + "\n"
     return files, paths
 
@@ -85,7 +97,7 @@ def run(ck):
     cases = []
     for idx, (n, g) in enumerate(gs):
         variant = 1 if (idx % 5 == 4 and n >= 2) else 0
-        files, paths = files_for(n, g, variant)
+        files, paths = files_for(n, g, variant, style=(idx % 4))
         res = expected_resolution(n, g, paths, variant)
         cases.append((n, g, variant, files, paths, res))
     lines_impl, lines_model = [], []
@@ -152,9 +164,11 @@ def run(ck):
             ck.fail(sig, "document links differ from the resolved includes", {"files": files, "root": paths[0]}, links, exp_links)
         else:
             for f in exp_files:
-                if syms.get(f) != ["C%d" % f]:
+                want = ["C%d" % f] + (["d%d" % f, "M%d" % f, "_x"] if "def d%d " % f in files[paths[f]] else [])
+                got = [x for x in (syms.get(f) or []) if not x.startswith("s") and not x.startswith("q")]    # (defsets / defs of the wrappers)
+                if got != want:
                     ck.fail(sig, "declarations of file f%d are not indexed exactly once: %s" % (f, syms.get(f)),
-                            {"files": files, "root": paths[0]}, syms.get(f), ["C%d" % f])
+                            {"files": files, "root": paths[0]}, syms.get(f), want)
                     break
     st = ck.cov["streams"].setdefault("graphs", {"evaluations": 0, "distinct_nontrivial": 0})
     st["model_disagreements"] = ndis
